@@ -318,6 +318,14 @@ def judge(case, res):
                     fails.append('result %s, expected %s' % (sv, exp))
             elif sv != exp:
                 fails.append('result %s, expected %s' % (sv, exp))
+        # whatever operation produced it, a Buffer is usable as a key: it hashes like a fresh Buffer with the same bits (C13)
+        from core import Buffer as _B
+        for r_ in ([val] if isinstance(val, _B) else [x for x in val if isinstance(x, _B)] if isinstance(val, list) else []):
+            try:
+                if hash(r_) != hash(mk(bits_of(r_), L)):
+                    fails.append('result %s does not hash like an equal fresh buffer' % raw(r_))
+            except Exception as e:  # noqa: BLE001
+                fails.append('hash(result) raised %s (content is a %s)' % (type(e).__name__, type(r_.content).__name__))
     # operand post-states
     for i, (b4, af) in enumerate(zip(res['before'], res['after'])):
         if i == 0 and res['inplace_self']:
